@@ -24,7 +24,7 @@ def names(rng, n, prefix, pool=None):
 
 
 class Scenario:
-    def __init__(self, n, c, k, sensors, seed=0, transcendental=False, pool=None, linear=False, branchy=False, share_reading=False, rational=False, assumptions=False, nonsmooth=False):
+    def __init__(self, n, c, k, sensors, seed=0, transcendental=False, pool=None, linear=False, branchy=False, share_reading=False, rational=False, assumptions=False, nonsmooth=False, passthrough=False):
         rng = random.Random(seed * 7919 + n * 131 + c * 17 + k * 5 + sum(sensors))
         self.rng = rng
         self.n, self.c, self.k, self.sensors = n, c, k, list(sensors)
@@ -63,6 +63,14 @@ class Scenario:
                     # log(exp(u)) -> u for complex u ...) change the value for inputs outside the principal range
                     e = e + sympy.asin(sympy.sin(a)) + sympy.atan(sympy.tan(b)) * 2 + sympy.sqrt(a**2) * 3 + sympy.acos(sympy.cos(a + b))
             self.state_model[s] = e
+        if passthrough and n >= 2:
+            # statements that only forward an input: identity-updated states (bias: bias), a state set to a control / calibration / dt
+            self.state_model[self.state[0]] = self.state[0]
+            self.state_model[self.state[1]] = self.state[1]
+            if n >= 3 and self.control:
+                self.state_model[self.state[2]] = self.control[-1]
+            if n >= 4 and self.calibration:
+                self.state_model[self.state[3]] = self.calibration[0]
         self.sensor_models = {}
         self.sensor_noises = {}
         self.sensor_names = names(rng, len(sensors), "sensor_")
